@@ -41,26 +41,26 @@ TRUSTED_BASE = [
 # ---------------------------------------------------------------------------------
 # property table: generator ids, volumes, which outcome families matter
 PROPS = {
-    "C01": dict(gens=["C01"], quick=4000, thorough=300000),
-    "C02": dict(gens=["C02", "K"], quick=8000, thorough=220000),
-    "C03": dict(gens=["C03", "K"], quick=14000, thorough=220000),
-    "C04": dict(gens=["C04", "K"], quick=22000, thorough=270000, known=["K1"]),
-    "C05": dict(gens=["C05"], quick=31000, thorough=300000),
-    "C08": dict(gens=["C08", "F08"], quick=22400, thorough=390000),
-    "C10": dict(gens=["C10"], quick=5000, thorough=300000),
-    "C14": dict(gens=["C14"], quick=3000, thorough=100000),
-    "C15": dict(gens=["C15", "F15"], quick=11200, thorough=260000),
-    "C16": dict(gens=["C16", "K"], quick=11000, thorough=220000),
+    "C01": dict(gens=["C01"], quick=4000, thorough=1500000),
+    "C02": dict(gens=["C02", "K"], quick=8000, thorough=1100000),
+    "C03": dict(gens=["C03", "K"], quick=14000, thorough=1100000),
+    "C04": dict(gens=["C04", "K"], quick=22000, thorough=1350000, known=["K1"]),
+    "C05": dict(gens=["C05"], quick=31000, thorough=1500000),
+    "C08": dict(gens=["C08", "F08"], quick=22400, thorough=1950000),
+    "C10": dict(gens=["C10"], quick=5000, thorough=1500000),
+    "C14": dict(gens=["C14"], quick=3000, thorough=500000),
+    "C15": dict(gens=["C15", "F15"], quick=11200, thorough=1300000),
+    "C16": dict(gens=["C16", "K"], quick=11000, thorough=1100000),
     "C06": dict(gens=["C06"], quick=15000, thorough=300000, known=["K2", "K4"]),
-    "C07": dict(gens=["C07", "F07"], quick=6000, thorough=250000),
-    "C09": dict(gens=["C09"], quick=4000, thorough=150000),
-    "C11": dict(gens=["C11"], quick=7000, thorough=250000),
-    "C12": dict(gens=["C12"], quick=4000, thorough=150000),
-    "C13": dict(gens=["C13"], quick=14000, thorough=300000),
-    "C17": dict(gens=["C17"], quick=14000, thorough=200000, known=["K1"]),
+    "C07": dict(gens=["C07", "F07"], quick=6000, thorough=300000),
+    "C09": dict(gens=["C09"], quick=4000, thorough=750000),
+    "C11": dict(gens=["C11"], quick=7000, thorough=400000),
+    "C12": dict(gens=["C12"], quick=4000, thorough=750000),
+    "C13": dict(gens=["C13"], quick=14000, thorough=1500000),
+    "C17": dict(gens=["C17"], quick=14000, thorough=1000000, known=["K1"]),
     "C18": dict(gens=["C18"], quick=700, thorough=20000),
     "C19": dict(gens=["C19"], quick=1200, thorough=20000),
-    "C20": dict(gens=["C20"], quick=9000, thorough=120000),
+    "C20": dict(gens=["C20"], quick=9000, thorough=240000),
 }
 
 
@@ -290,7 +290,8 @@ def harness_only_verdict(line, im):
                 known = "K1"
         except ValueError:
             pass
-    return ("B 1", ok, ok, known)
+    # on a known-finding class the recorded behaviour is the disagreement itself (corr = "behaves as recorded")
+    return ("B 1", True if known != "-" else ok, ok, known)
 
 
 def run_driver(lines, impl, pf, tag):
@@ -520,6 +521,7 @@ def main():
     rows = []
     impl = []
     src_changed = []
+    repaired_known = {}
     n_corr_fail = n_acc_fail = 0
     first_corr = None
     if okd and okh:
@@ -544,7 +546,9 @@ def main():
         seen_viol = set()
         for ln, im, (mo, corr, acc, ktag) in zip(lines, impl, rows):
             if not acc:
-                if ktag in knowns:
+                # a recorded finding is the input class AND the recorded wrong behaviour (which the model mirrors):
+                # a different wrong outcome on the same inputs is a new violation
+                if ktag in knowns and corr:
                     known_hits.setdefault(ktag, ln + " -> " + im)
                     continue
                 n_acc_fail += 1
@@ -553,6 +557,10 @@ def main():
                     seen_viol.add(key)
                     violations.append((write_replay(pid, "oracle", dict(line=ln, implementation=im, model=mo, seed=seed, tier=tier,
                                                                         what="specification rejects the implementation's outcome")), ""))
+            elif not corr and ktag in knowns:
+                # the model mirrors the recorded defect on this input class on purpose; the specification accepts what
+                # the implementation returns now (the defect has been repaired there): the oracle alone decides
+                repaired_known.setdefault(ktag, ln + " -> " + im)
             elif not corr:
                 n_corr_fail += 1
                 if first_corr is None:
@@ -603,7 +611,7 @@ def main():
                  "distinct = distinct protocol lines; non-trivial = some integer argument of magnitude > 9",
             samples=samples[:8],
             correspondence_disagreements=n_corr_fail, oracle_rejections=n_acc_fail,
-            known_findings_hit=sorted(known_hits), build_configurations=configs if (okd and okh) else [], op_histogram=ops, outcome_kind_histogram=kinds, mode_histogram=modes,
+            known_findings_hit=sorted(known_hits), known_finding_inputs_now_accepted=sorted(repaired_known), build_configurations=configs if (okd and okh) else [], op_histogram=ops, outcome_kind_histogram=kinds, mode_histogram=modes,
             exhaustive=False,
         ),
         assumptions=["model faithfulness beyond the explored inputs", "rustc semantics of primitive operations", "see DESIGN.md §6"],
